@@ -21,7 +21,7 @@ import (
 	"verif/harness/internal/hx"
 )
 
-const ruleC19 = "rapid state machine over wallet.Service on a scratch directory (sha256-xor or weak scrypt): create (deterministic / bip44 / collection / xpub, temporary or not, encrypted or not, seeds from a pool of 4 so that duplicates occur, bad parameters: empty seed, invalid mnemonic, passphrase on a deterministic wallet, bad xpub, name collision), new addresses, scan, label change, encrypt, decrypt, recover, unload, secret update (incl. a callback that fails), each with right / wrong / missing passwords and unknown wallet ids; after every step: every loaded non-temporary wallet's serialisation equals the bytes of its file and the serialisation of the same wallet in a freshly started service on the directory, temporary wallets have no file, no two loaded wallets share a fingerprint, and a step that returned an error left the directory (names and bytes) and every in-memory wallet unchanged; non-trivial = the history has at least one failing operation and one encrypt or decrypt; distinct by operation log"
+const ruleC19 = "rapid state machine over wallet.Service on a scratch directory (sha256-xor or weak scrypt): create (deterministic / bip44 / collection / xpub, temporary or not, encrypted or not, seeds from a pool of 4 so that duplicates occur, bad parameters: empty seed, invalid mnemonic, passphrase on a deterministic wallet, bad xpub, name collision), new addresses, scan, label change, encrypt, decrypt, recover, unload, secret update (incl. a callback that fails), each with right / wrong / missing passwords and unknown wallet ids, and 1 step in 6 with a disk fault in place that makes the save inside the operation fail (wallet directory moved away, or the wallet file name occupied by a directory so that the final rename fails); after every step: every loaded non-temporary wallet's serialisation equals the bytes of its file and the serialisation of the same wallet in a freshly started service on the directory, temporary wallets have no file, no two loaded wallets share a fingerprint, and a step that returned an error left the directory (names and bytes) and every in-memory wallet unchanged; non-trivial = the history has at least one failing operation and one encrypt or decrypt; distinct by operation log"
 
 func dirSnapshot(dir string) map[string]string {
 	out := map[string]string{}
@@ -73,7 +73,7 @@ func diffMaps(a, b map[string]string) string {
 func TestC19_Service(t *testing.T) {
 	r := ev.Get("C19")
 	r.Rule(ruleC19)
-	r.Assume("file-system faults are not injected here (see C20); a wallet that was unloaded keeps its file by documented design and is excluded from the memory/disk comparison; re-creating an unloaded seed legitimately leaves two files with one fingerprint, which a fresh service refuses by design - that situation is reported as dup_after_unload and compared file by file")
+	r.Assume("crashes are not injected here (see C20), failing saves are (missing directory, failing rename); a wallet that was unloaded keeps its file by documented design and is excluded from the memory/disk comparison; re-creating an unloaded seed legitimately leaves two files with one fingerprint, which a fresh service refuses by design - that situation is reported as dup_after_unload and compared file by file")
 	hx.Check(t, "C19", 120, 6000, func(t *rapid.T) {
 		dir := hx.TempDir("c19")
 		defer os.RemoveAll(dir)
@@ -98,7 +98,7 @@ func TestC19_Service(t *testing.T) {
 		unloaded := map[string]bool{}
 		var hist []string
 		nameN := 0
-		failures, crypt := 0, 0
+		failures, crypt, faulted := 0, 0, 0
 		dupAfterUnload := false
 		seeds := []string{"seed-A", "seed-B", "seed-C", "seed-D"}
 		pickID := func(t *rapid.T) string {
@@ -126,6 +126,13 @@ func TestC19_Service(t *testing.T) {
 		}
 		invariant := func(op string, opErr error, beforeDir, beforeMem map[string]string) {
 			hist = append(hist, fmt.Sprintf("%s -> %v", op, opErr))
+			if strings.HasSuffix(op, "]") {
+				faulted++
+				r.Count("steps_with_disk_fault")
+				if opErr != nil {
+					r.Count("steps_with_disk_fault_that_failed")
+				}
+			}
 			nowDir, nowMem := dirSnapshot(dir), memSnapshot(t, s)
 			if opErr != nil {
 				failures++
@@ -204,6 +211,49 @@ func TestC19_Service(t *testing.T) {
 			}
 		}
 		snap := func() (map[string]string, map[string]string) { return dirSnapshot(dir), memSnapshot(t, s) }
+		// arm: 1 step in 6 runs with a disk fault in place so that the save inside the operation fails - either the
+		// wallet directory is moved away (the temporary file cannot be created) or the wallet's own file name is
+		// occupied by a non-empty directory (the final rename fails).  The returned function undoes the fault; files
+		// the failed save left beside the wallets (*.tmp.*) are removed and counted, they are not wallets.
+		arm := func(t *rapid.T, id string) (string, func()) {
+			switch rapid.IntRange(0, 11).Draw(t, "diskfault") {
+			case 0:
+				away := dir + ".away"
+				if err := os.Rename(dir, away); err != nil {
+					t.Fatalf("harness: %v", err)
+				}
+				return " [wallet directory missing]", func() {
+					os.RemoveAll(dir)
+					if err := os.Rename(away, dir); err != nil {
+						t.Fatalf("harness: %v", err)
+					}
+				}
+			case 1:
+				target := filepath.Join(dir, id)
+				if st, err := os.Stat(target); err != nil || st.IsDir() {
+					return "", func() {}
+				}
+				keep := filepath.Join(filepath.Dir(dir), filepath.Base(dir)+".keep")
+				if err := os.Rename(target, keep); err != nil {
+					t.Fatalf("harness: %v", err)
+				}
+				os.MkdirAll(filepath.Join(target, "occupied"), 0700)
+				return " [wallet file name occupied by a directory]", func() {
+					os.RemoveAll(target)
+					if err := os.Rename(keep, target); err != nil {
+						t.Fatalf("harness: %v", err)
+					}
+					fs, _ := os.ReadDir(dir)
+					for _, f := range fs {
+						if strings.Contains(f.Name(), ".tmp.") {
+							os.Remove(filepath.Join(dir, f.Name()))
+							r.Count("temporary_file_left_by_failed_save")
+						}
+					}
+				}
+			}
+			return "", func() {}
+		}
 
 		t.Repeat(map[string]func(*rapid.T){
 			"create": func(t *rapid.T) {
@@ -258,7 +308,9 @@ func TestC19_Service(t *testing.T) {
 					opts.Password = []byte("pw" + name)
 					mi.pw = string(opts.Password)
 				}
+				fd, disarm := arm(t, name)
 				w, err := s.CreateWallet(name, opts)
+				disarm()
 				if err == nil {
 					if w == nil {
 						t.Fatalf("CreateWallet returned nil without error")
@@ -269,7 +321,7 @@ func TestC19_Service(t *testing.T) {
 					model[name] = mi
 					delete(unloaded, name)
 				}
-				invariant(fmt.Sprintf("create(%s,%s,seed%d,temp=%v,enc=%v)", name, kind, seedIdx, opts.Temp, opts.Encrypt), err, bd, bm)
+				invariant(fmt.Sprintf("create(%s,%s,seed%d,temp=%v,enc=%v)%s", name, kind, seedIdx, opts.Temp, opts.Encrypt, fd), err, bd, bm)
 			},
 			"new_addresses": func(t *rapid.T) {
 				bd, bm := snap()
@@ -280,8 +332,10 @@ func TestC19_Service(t *testing.T) {
 				}
 				pw := pickPW(t, right)
 				n := rapid.IntRange(0, 3).Draw(t, "n")
+				fd, disarm := arm(t, id)
 				_, err := s.NewAddresses(id, pw, wallet.OptionGenerateN(uint64(n)))
-				invariant(fmt.Sprintf("new_addresses(%s,%d,pw=%q)", id, n, pw), err, bd, bm)
+				disarm()
+				invariant(fmt.Sprintf("new_addresses(%s,%d,pw=%q)%s", id, n, pw, fd), err, bd, bm)
 			},
 			"scan": func(t *rapid.T) {
 				bd, bm := snap()
@@ -291,26 +345,33 @@ func TestC19_Service(t *testing.T) {
 					right = mi.pw
 				}
 				pw := pickPW(t, right)
-				_, err := s.ScanAddresses(id, pw, uint64(rapid.IntRange(0, 4).Draw(t, "n")), fakeFinder{map[string]bool{}})
-				invariant(fmt.Sprintf("scan(%s,pw=%q)", id, pw), err, bd, bm)
+				scanN := uint64(rapid.IntRange(0, 4).Draw(t, "n"))
+				fd, disarm := arm(t, id)
+				_, err := s.ScanAddresses(id, pw, scanN, fakeFinder{map[string]bool{}})
+				disarm()
+				invariant(fmt.Sprintf("scan(%s,pw=%q)%s", id, pw, fd), err, bd, bm)
 			},
 			"label": func(t *rapid.T) {
 				bd, bm := snap()
 				id := pickID(t)
 				label := rapid.SampledFrom([]string{"new label", "x", "", "label \"quoted\" \\ é"}).Draw(t, "label")
+				fd, disarm := arm(t, id)
 				err := s.UpdateWalletLabel(id, label)
-				invariant(fmt.Sprintf("label(%s,%q)", id, label), err, bd, bm)
+				disarm()
+				invariant(fmt.Sprintf("label(%s,%q)%s", id, label, fd), err, bd, bm)
 			},
 			"encrypt": func(t *rapid.T) {
 				bd, bm := snap()
 				id := pickID(t)
 				pw := rapid.SampledFrom([]string{"secret", "p", ""}).Draw(t, "pw")
+				fd, disarm := arm(t, id)
 				_, err := s.EncryptWallet(id, []byte(pw))
+				disarm()
 				if err == nil {
 					model[id].pw = pw
 					crypt++
 				}
-				invariant(fmt.Sprintf("encrypt(%s,%q)", id, pw), err, bd, bm)
+				invariant(fmt.Sprintf("encrypt(%s,%q)%s", id, pw, fd), err, bd, bm)
 			},
 			"decrypt": func(t *rapid.T) {
 				bd, bm := snap()
@@ -320,12 +381,14 @@ func TestC19_Service(t *testing.T) {
 					right = mi.pw
 				}
 				pw := pickPW(t, right)
+				fd, disarm := arm(t, id)
 				_, err := s.DecryptWallet(id, pw)
+				disarm()
 				if err == nil {
 					model[id].pw = ""
 					crypt++
 				}
-				invariant(fmt.Sprintf("decrypt(%s,%q)", id, pw), err, bd, bm)
+				invariant(fmt.Sprintf("decrypt(%s,%q)%s", id, pw, fd), err, bd, bm)
 			},
 			"recover": func(t *rapid.T) {
 				bd, bm := snap()
@@ -335,11 +398,13 @@ func TestC19_Service(t *testing.T) {
 					seed, pass = mi.seed, mi.pass
 				}
 				newpw := rapid.SampledFrom([]string{"", "newpw"}).Draw(t, "newpw")
+				fd, disarm := arm(t, id)
 				_, err := s.RecoverWallet(id, seed, pass, []byte(newpw))
+				disarm()
 				if err == nil {
 					model[id].pw = newpw
 				}
-				invariant(fmt.Sprintf("recover(%s,newpw=%q)", id, newpw), err, bd, bm)
+				invariant(fmt.Sprintf("recover(%s,newpw=%q)%s", id, newpw, fd), err, bd, bm)
 			},
 			"unload": func(t *rapid.T) {
 				bd, bm := snap()
@@ -364,6 +429,7 @@ func TestC19_Service(t *testing.T) {
 				}
 				pw := pickPW(t, right)
 				fail := rapid.Bool().Draw(t, "cbfail")
+				fd, disarm := arm(t, id)
 				err := s.UpdateSecrets(id, pw, func(w wallet.Wallet) error {
 					w.SetLabel("updated by callback")
 					if fail {
@@ -371,7 +437,8 @@ func TestC19_Service(t *testing.T) {
 					}
 					return nil
 				})
-				invariant(fmt.Sprintf("update_secrets(%s,pw=%q,fail=%v)", id, pw, fail), err, bd, bm)
+				disarm()
+				invariant(fmt.Sprintf("update_secrets(%s,pw=%q,fail=%v)%s", id, pw, fail, fd), err, bd, bm)
 			},
 		})
 		nt := failures >= 1 && crypt >= 1
